@@ -32,6 +32,57 @@ Theorem c07_final : forall s u pw, In SUp (servers s) -> snd (login s u pw) = di
 Proof. exact verdict_final. Qed.
 Print Assumptions c07_final.
 
+(* What counts as "a server answered": the reply to a bind is (result code, diagnostic text).
+   Result code 49 (invalidCredentials) is the directory's refusal WHATEVER the diagnostic says —
+   nothing, a plain sentence, or Active Directory's sub status (bad password 0x52e, no such user
+   0x525, logon restriction, password expired 0x532, account disabled 0x533, expired 0x701, must
+   reset 0x773, locked out 0x775, any other number); no other result code is a verdict. *)
+Theorem c07_refusal_any_diagnostic : forall c d,
+  verdict interp_code (RRefused c d) = if N.eqb c 49 then Some false else None.
+Proof. exact interp_code_any_diag. Qed.
+Print Assumptions c07_refusal_any_diagnostic.
+
+(* ... and such a refusal is final: a replica answers the bind of (u, pw) with invalidCredentials
+   and ANY diagnostic d — the login is refused, and if pw is the cached password its hash is
+   evicted from both stores (while the primary can be written).  In particular every account the
+   directory holds out of order is refused with its own diagnostic. *)
+Theorem c07_refusal_final : forall s u pw d,
+  In SUp (servers s) -> bind s SUp u pw = RRefused 49 d ->
+  snd (login s u pw) = false /\
+  forall j, get_pw true s u = GOk j -> j_pw j = pw -> writable (st s) = true ->
+    aget skey_eqb (u, pw_type) (signed (primary (st (fst (login s u pw))))) = None /\
+    aget skey_eqb (u, pw_type) (signed (cache (st (fst (login s u pw))))) = None.
+Proof. exact refusal_final. Qed.
+Print Assumptions c07_refusal_final.
+
+Theorem c07_account_state_refused : forall s u pw d,
+  aget N.eqb u (acct s) = Some d ->
+  bind s SUp u pw = RRefused 49 (if Nat.eqb (home s u) 0 then d else style s) /\ dir_accepts s u pw = false.
+Proof.
+  intros s u pw d H. split; [exact (acct_refused s u pw d H)|].
+  exact (proj2 (bind_refused_rejects _ _ _ _ _ (acct_refused s u pw d H))).
+Qed.
+Print Assumptions c07_account_state_refused.
+
+(* Several bind patterns (passwordAuthenticate loops over URLs x patterns): however many patterns
+   are configured beyond the first, verdict, stores and record table after a login are those of
+   the one-pattern configuration - a replica that answers, answers the FIRST pattern's bind and
+   that is final; a replica that does not answer, answers no pattern.  So every theorem of this
+   file, stated with the first pattern's verdict [dir_accepts], holds for any number of patterns. *)
+Theorem c07_first_pattern_decides : forall s e u pw,
+  snd (login (with_extra s e) u pw) = snd (login s u pw) /\
+  st (fst (login (with_extra s e) u pw)) = st (fst (login s u pw)) /\
+  jwss (fst (login (with_extra s e) u pw)) = jwss (fst (login s u pw)).
+Proof. exact login_patterns_irrelevant. Qed.
+Print Assumptions c07_first_pattern_decides.
+
+(* consequence (a false reject, outside the statement): a user whose entry lives under a later
+   pattern is refused while any replica answers *)
+Theorem c07_later_pattern_user_refused : forall s u pw,
+  In SUp (servers s) -> home s u <> 0%nat -> snd (login s u pw) = false.
+Proof. exact later_pattern_user_refused. Qed.
+Print Assumptions c07_later_pattern_user_refused.
+
 (* rejection of the cached password evicts the hash from both stores (while the primary can be
    written; with the primary unreachable nothing can be written: see ..._refuted below) *)
 Theorem c07_evict : forall s u pw j,
@@ -98,6 +149,29 @@ Theorem c07_old_evict_cache_refuted :
 Proof. exact old_evict_cache_refuted. Qed.
 Print Assumptions c07_old_evict_cache_refuted.
 
+(* ---- what a diagnostic-sensitive reading of the refusal would do (Model.PwCache.interp_ad: only
+   the AD sub statuses "bad password" / "no such user" count as the directory's answer): with a
+   replica up and refusing the disabled account, the cache accepts its cached password; the
+   machine of the code refuses and evicts *)
+Theorem c07_diag_sensitive_refuted :
+  let ops := removelast ad_disabled_history in
+  In SUp (servers (prun_ad 1 ops)) /\ dir_accepts (prun_ad 1 ops) 1 7 = false /\
+  snd (pstep_ad (prun_ad 1 ops) (Login 1 7)) = Some true /\
+  snd (pstep (prun 1 ops) (Login 1 7)) = Some false /\
+  aget skey_eqb (1%N, pw_type) (signed (cache (st (fst (pstep (prun 1 ops) (Login 1 7)))))) = None.
+Proof. exact diag_sensitive_refuted. Qed.
+Print Assumptions c07_diag_sensitive_refuted.
+
+(* with a second pattern configured that reading is masked (the second pattern's "no such entry"
+   is a refusal it does accept as the directory's answer): the one-pattern configuration, which is
+   what keymasterd builds, is the one that exposes it *)
+Theorem c07_diag_sensitive_masked_by_second_pattern :
+  let ops := removelast ad_disabled_history in
+  snd (pstep_ad (prun_ad2 1 0 ops) (Login 1 7)) = Some true /\
+  snd (pstep_ad (prun_ad2 1 1 ops) (Login 1 7)) = Some false.
+Proof. exact ad_masked_by_second_pattern. Qed.
+Print Assumptions c07_diag_sensitive_masked_by_second_pattern.
+
 (* ---- still false (known finding C07:evicted-password-accepted:primary-outage-at-eviction):
    "rejection of the cached password evicts the hash" cannot be carried out while the primary
    store is unreachable; the hash comes back with the next copy *)
@@ -121,3 +195,12 @@ Example c07_history :
    None; Some true; None; Some true; Some false; Some false;
    None; None; Some false; None; Some false; Some false].
 Proof. vm_compute. reflexivity. Qed.
+
+(* two bind patterns, carol (3) lives under the second: the first pattern's refusal is final while a
+   replica answers (with one pattern or two), and nothing was cached for the outage either *)
+Example c07_patterns :
+  map snd (prun_outs (pinit2 1 1) [SetHome 3 1%nat; ChangePw 3 3; ChangePw 1 7; Login 3 3; Login 1 7;
+                                   SetServer 0 SDown; Login 3 3; Login 1 7]) =
+  [None; None; None; Some false; Some true; None; Some false; Some true] /\
+  map snd (prun_outs (pinit2 1 0) [SetHome 3 1%nat; ChangePw 3 3; Login 3 3]) = [None; None; Some false].
+Proof. vm_compute. split; reflexivity. Qed.
